@@ -13,7 +13,7 @@
      one_sheet out f g : out = Ok [cone; plane]; -s is {f < 0 and g > 0},
        +s is {f > 0 or g < 0}, and the cone's zero set is that of f. *)
 From Coq Require Import List ZArith Bool Reals Lra.
-From T4V Require Import Base.Scalar C02.Vec C02.Spec C02.Model C02.Proofs C02.ProofsCards C02.ProofsP3 C02.ProofsAll C02.ProofsAxis C02.ProofsNum C02.ProofsIds.
+From T4V Require Import Base.Scalar C02.Vec C02.Spec C02.Model C02.Proofs C02.ProofsCards C02.ProofsP3 C02.ProofsAll C02.ProofsAxis C02.ProofsNum C02.ProofsIds C02.ProofsBand C02.ProofsCounts.
 Import ListNotations.
 Open Scope R_scope.
 
@@ -339,6 +339,117 @@ Proof.
   - exact p3_collinear_raises.
 Qed.
 Print Assumptions C02_inadmissible_cards_raise.
+
+(* ---------- three-point planes INSIDE the thresholds ---------- *)
+(* For EVERY nine-entry P card the code accepts (|n|^2 > 1e-10, no band guard):
+   the code's orientation is the manual's four rules applied to the
+   THRESHOLDED quantities thr m v = (0 if |v| <= 1e-14 |n| else v) -- code_keep --
+   and the emitted plane is k > 0 times the plane through the three points with
+   that orientation.  It never fails for lack of a deciding quantity. *)
+Theorem C02_P_three_points_thresholded : forall x1 y1 z1 x2 y2 z2 x3 y3 z3 : R,
+  let p1 := (x1, y1, z1) in let p2 := (x2, y2, z2) in let p3 := (x3, y3, z3) in
+  let n := p3_normal RS p1 p2 p3 in
+  e10 < mag2 RS n ->
+  exists keep,
+    p3_keep RS (thr (mag RS n) (vx n), thr (mag RS n) (vy n), thr (mag RS n) (vz n))
+               (thr (mag RS n) (scal RS n p1)) = Some keep /\
+    locus_sense (convert_card RS M_P [x1; y1; z1; x2; y2; z2; x3; y3; z3])
+      (if keep then fM_p RS (vx n) (vy n) (vz n) (scal RS n p1)
+       else fM_p RS (- vx n) (- vy n) (- vz n) (- scal RS n p1)).
+Proof. exact p3_sense_thresholded. Qed.
+Print Assumptions C02_P_three_points_thresholded.
+
+(* the thresholded rule IS the manual's rule whenever D, C, B, A are each zero
+   or clear of the threshold (p3_guard); and it is NOT on the plane z = -t,
+   0 < t <= 1e-14, given by (0,0,-t), (0,1,-t), (1,0,-t): the manual keeps
+   -z - t (origin negative), the code emits z + t, so every point off the
+   plane gets the opposite sense.  The deviation set is exactly: the first
+   non-zero quantity among D, C, B, A lies inside the band and the first one
+   outside the band has the other sign. *)
+Theorem C02_P_three_points_band_deviation :
+  (forall n p1 : vec (T:=R), p3_guard n p1 -> code_keep n p1 = p3_keep RS n (scal RS n p1)) /\
+  (forall t : R, 0 < t <= e14 ->
+     p3_plane RS (0, 0, - t) (0, 1, - t) (1, 0, - t) = Some (0, 0, - (1), t) /\
+     locus_sense (convert_card RS M_P [0; 0; - t; 0; 1; - t; 1; 0; - t])
+                 (fM_p RS (- 0) (- 0) (- - (1)) (- t))).
+Proof. split; [exact code_keep_manual | exact p3_band_deviation]. Qed.
+Print Assumptions C02_P_three_points_band_deviation.
+
+(* ---------- cards outside MCNP's admissibility: what the code does ---------- *)
+(* for every scalar instance: surplus entries are ignored by SO PX PY PZ CX CY
+   CZ SX SY SZ C/X C/Y C/Z SQ; ONE surplus entry after the selector position
+   of a K card makes the selector unread (two-sheet cone); GQ passes any
+   number of entries to QUAD; missing entries raise IndexError; S, P, TX, X
+   want exact counts *)
+Theorem C02_parameter_count_behaviour : forall (T : Type) (S : Scalar T),
+  (forall (v e : T) extra,
+     convert_card S M_SO (v :: e :: extra) = convert_card S M_SO [v] /\
+     convert_card S M_PX (v :: e :: extra) = convert_card S M_PX [v] /\
+     convert_card S M_PY (v :: e :: extra) = convert_card S M_PY [v] /\
+     convert_card S M_PZ (v :: e :: extra) = convert_card S M_PZ [v] /\
+     convert_card S M_CX (v :: e :: extra) = convert_card S M_CX [v] /\
+     convert_card S M_CY (v :: e :: extra) = convert_card S M_CY [v] /\
+     convert_card S M_CZ (v :: e :: extra) = convert_card S M_CZ [v]) /\
+  (forall (a b e : T) extra,
+     convert_card S M_SX (a :: b :: e :: extra) = convert_card S M_SX [a; b] /\
+     convert_card S M_SY (a :: b :: e :: extra) = convert_card S M_SY [a; b] /\
+     convert_card S M_SZ (a :: b :: e :: extra) = convert_card S M_SZ [a; b]) /\
+  (forall (a b c e : T) extra,
+     convert_card S M_C_X (a :: b :: c :: e :: extra) = convert_card S M_C_X [a; b; c] /\
+     convert_card S M_C_Y (a :: b :: c :: e :: extra) = convert_card S M_C_Y [a; b; c] /\
+     convert_card S M_C_Z (a :: b :: c :: e :: extra) = convert_card S M_C_Z [a; b; c]) /\
+  (forall (a b c d e f g x y z e1 : T) extra,
+     convert_card S M_SQ (a :: b :: c :: d :: e :: f :: g :: x :: y :: z :: e1 :: extra) =
+     convert_card S M_SQ [a; b; c; d; e; f; g; x; y; z]) /\
+  (forall (c t2 s e : T) extra (x y z : T),
+     convert_card S M_KX (c :: t2 :: s :: e :: extra) = convert_card S M_KX [c; t2] /\
+     convert_card S M_KY (c :: t2 :: s :: e :: extra) = convert_card S M_KY [c; t2] /\
+     convert_card S M_KZ (c :: t2 :: s :: e :: extra) = convert_card S M_KZ [c; t2] /\
+     convert_card S M_K_X (x :: y :: z :: t2 :: s :: e :: extra) = convert_card S M_K_X [x; y; z; t2] /\
+     convert_card S M_K_Y (x :: y :: z :: t2 :: s :: e :: extra) = convert_card S M_K_Y [x; y; z; t2] /\
+     convert_card S M_K_Z (x :: y :: z :: t2 :: s :: e :: extra) = convert_card S M_K_Z [x; y; z; t2]) /\
+  (forall l : list T, convert_card S M_GQ l = Ok [((QUAD, l), 1%Z)]) /\
+  (convert_card S M_SO [] = Err EIndex /\ convert_card S M_PX [] = Err EIndex /\
+   convert_card S M_CX [] = Err EIndex /\
+   (forall a, convert_card S M_SX [a] = Err EIndex) /\
+   (forall a b, convert_card S M_C_X [a; b] = Err EIndex) /\
+   (forall a, convert_card S M_KX [a] = Err EIndex) /\
+   (forall a b c, convert_card S M_K_X [a; b; c] = Err EIndex) /\
+   (forall a b c d e f g x y, convert_card S M_SQ [a; b; c; d; e; f; g; x; y] = Err EIndex)) /\
+  (forall a b c d e : T,
+     convert_card S M_S [a; b; c] = Err EType /\
+     convert_card S M_S [a; b; c; d; e] = Err EType /\
+     convert_card S M_P [a; b; c] = Err EValue /\
+     convert_card S M_P [a; b; c; d; e] = Err EValue /\
+     convert_card S M_TX [a; b; c; d] = Err EValue /\
+     convert_card S M_X [a; b; c] = Err ENotImpl /\
+     convert_card S M_X [a; b; c; d; e] = Err ENotImpl).
+Proof.
+  intros T S.
+  split; [apply surplus_ignored_1|]. split; [apply surplus_ignored_2|].
+  split; [apply surplus_ignored_3|]. split; [apply surplus_ignored_sq|].
+  split; [intros; apply surplus_drops_selector|]. split; [apply gq_any_count|].
+  split; [apply short_raises|]. apply exact_counts.
+Qed.
+Print Assumptions C02_parameter_count_behaviour.
+
+(* sheet selectors with 2 <= |int(s)| <= 8: the auxiliary plane gets the side
+   -int(s) of that magnitude, and number_items then writes the literal
+   side * free, which names another id than the plane's (free) *)
+Theorem C02_large_selector :
+  (forall (s : R) (k : Z), (2 <= k <= 8)%Z ->
+     (IZR k <= s < IZR (k + 1) -> minus_int RS s = Ok (- k)%Z) /\
+     (IZR (- (k + 1)) < s <= IZR (- k) -> minus_int RS s = Ok k)) /\
+  (forall (z0 t2 s : R) (k : Z), 0 <= t2 -> (2 <= k <= 8)%Z -> IZR k <= s < IZR (k + 1) ->
+     exists cone plane, convert_card RS M_KZ [z0; t2; s] = Ok [(cone, 1%Z); (plane, (- k)%Z)]) /\
+  (forall side free : Z, (0 < free)%Z -> (2 <= Z.abs side)%Z -> Z.abs (side * free) <> free).
+Proof.
+  repeat apply conj.
+  - exact minus_int_large.
+  - exact kz_large_selector.
+  - exact large_side_names_another_id.
+Qed.
+Print Assumptions C02_large_selector.
 
 (* ---------- numbering of the emitted surfaces ---------- *)
 (* CollectionDict.number_items on a dictionary with distinct positive keys and
